@@ -94,7 +94,7 @@ func concCall(in concInput) (out string) {
 	}()
 	switch in.kind {
 	case "decode":
-		f, err := fit.Decode(bytes.NewReader(in.data), fit.WithUnknownFields(), fit.WithUnknownMessages())
+		f, err := fit.Decode(bytes.NewReader(in.data), optUF, optUM)
 		return tag(err) + " " + renderFile(f)
 	case "chained":
 		fs, err := fit.DecodeChained(bytes.NewReader(in.data))
